@@ -47,3 +47,56 @@ Proof.
     exists c0, chunks, last. repeat split; auto.
     rewrite Hc, Hout. reflexivity.
 Qed.
+
+(* ------------------------------------------------------------------------------------------ *)
+(* check mode on a tree of canonical files                                                     *)
+(* ------------------------------------------------------------------------------------------ *)
+From Coq Require Import String.
+From Breadlog Require Import Gen.Grammar Proofs.PegFacts Proofs.GlueFacts Proofs.CheckFacts Proofs.NoPanic.
+
+Lemma find_total : forall cfg (t : list N),
+  exists es, find cfg t = Done es /\ Forall (fun e => e_pos e <= blen t) es.
+Proof.
+  assert (Hgok : grammar_ok the_params "file"%string RNormal false
+                   (ESeq ESoi (ESeq (ERep (EChoice r_log_macro (EChoice r_other_name EAny))) EEoi))).
+  { unfold grammar_ok. cbn [p_file the_params p_ws p_comment]. unfold g_file, r_file.
+    split; [reflexivity|]. split; [reflexivity|]. split; [vm_compute; reflexivity|]. split; vm_compute; reflexivity. }
+  exact (entries_total the_params _ _ _ _ Hgok).
+Qed.
+
+(* every file of the tree is (the UTF-8 encoding of) a canonical file *)
+Definition canonical_tree (files : list (list N)) (specs : list (list (lay * item) * lay)) : Prop :=
+  Forall2 (fun b s => utf8_decode b = Some (render_items (fst s) (snd s)) /\ items_ok (fst s) (snd s)) files specs.
+
+(* what check must report: file by file, the line and column `expected` gives for every statement
+   that lacks a reference and has a usable position *)
+Fixpoint canonical_missing (cfg : config) (specs : list (list (lay * item) * lay)) (i : nat) : list report :=
+  match specs with
+  | [] => []
+  | s :: r => (missing_reports i (expected cfg (render_items (fst s) (snd s)) (fst s) []) ++ canonical_missing cfg r (S i))%list
+  end.
+
+Lemma expected_missing_canonical cfg rfail : forall files specs i,
+  canonical_tree files specs -> (forall j, rfail j = false) ->
+  expected_missing find cfg rfail files i = canonical_missing cfg specs i.
+Proof.
+  induction files as [|b files IH]; intros specs i Ht Hr; inversion Ht as [|? s ? specs' [Hd Hok] Hrest]; subst.
+  - reflexivity.
+  - cbn [expected_missing canonical_missing]. rewrite Hr.
+    rewrite (file_entries_canonical cfg b (fst s) (snd s) Hd Hok). rewrite (IH specs' (S i) Hrest Hr). reflexivity.
+Qed.
+
+(* C05 / C10 / C13 composed: --check on a tree of canonical files, every readable, not interrupted *)
+Theorem canonical_check_verdict rc files specs o :
+  files <> [] -> canonical_tree files specs -> (forall j, o_rfail2 o j = false) -> o_stop2 o = None ->
+  let out := run_check find rc (Some files) o in
+  let want := canonical_missing (rc_cfg rc) specs 0 in
+  filter is_missing_report (ro_reports out) = want /\
+  ro_total out = Some (lenN want) /\
+  (ro_exit out = XErr <-> want <> []) /\ (ro_exit out = XOk <-> want = []).
+Proof.
+  intros Hne Ht Hr Hst. cbv zeta.
+  destruct (run_check_never_panics find find_total rc (Some files) o) as [Hnp Hnh].
+  pose proof (check_verdict find rc files o Hne Hnp Hnh Hst) as H. cbv zeta in H.
+  rewrite (expected_missing_canonical (rc_cfg rc) (o_rfail2 o) files specs 0 Ht Hr) in H. exact H.
+Qed.
